@@ -9,6 +9,10 @@ F-c16-gcxs-reduce-product   GCXS reduction over a compressed axis of a >=3-d arr
                             Region: GCXS, ndim >= 3, reduced axes include the compressed axis, MemoryError.
 F-c16-gcxs-getitem-product  GCXS indexing expands every slice to `np.arange` and takes the cartesian product of the column selectors (`convert_to_flat`).
                             Region: GCXS, ndim >= 3, key leaving two or more full uncompressed axes, MemoryError.
+F-c16-dense-operand-view-limit  element-wise operations with a scalar / dense operand form np.broadcast_to(operand, full shape): NumPy refuses the view when
+                            elements * itemsize exceeds the intp range, although the sparse array (linear index < 2**63) is addressable; nansum/nanprod/
+                            nanmean go through where(isnan(x), 0, x).  Region: ValueError "array is too big", logical size * 8 >= 2**63, a reduction of the
+                            nan* family or a mixed operation.
 
 Retired (fixed in /repo, the witness is a must-pass case of c16.py: product:coo@coo:huge / product:gcxs@gcxs:huge, deadline 60 s incl. JIT warm-up):
 F-c16-dot-rows-times-cols   COO @ COO / GCXS @ GCXS (2-d) reset `next_[:] = -1` once per result row (4b845d6); Props/C16: statement_dot_csr_csr.
@@ -35,6 +39,9 @@ def classify(name, case, msg):
         ca = case.get("caxes") if op == "from_coo" else (case.get("kwargs") or {}).get("compressed_axes")
         if ca is not None and len(ca) >= 2 and _prod(shape[a] for a in ca) >= BIG and (op == "from_coo" or case.get("to") == "gcxs"):
             return "F-c16-gcxs-indptr-product"
+    if "array is too big" in msg and "ValueError" in msg and _prod(shape) * 8 >= 2**63:
+        if op == "mixed" or (op == "reduce_batch" and all(str(it[0]).startswith("nan") for it in case.get("items", []))):
+            return "F-c16-dense-operand-view-limit"
     if op == "method" and case.get("name") in ("var", "std") and mem and len(shape) >= 2 and _prod(shape) >= BIG \
             and (case.get("kwargs") or {}).get("axis") is not None:
         return "F-c16-var-densifies"
